@@ -444,6 +444,21 @@ def campaign_functions(ck: Check, n: int) -> None:
         twice = real_resolve([root, once])[1]
         if twice != once:
             ck.fail({"oracle": "resolve_idempotent"}, {"root": root, "ref": ref}, f"resolve_ref twice gives {twice!r}, once {once!r}")
+    # which strings are `$id`/anchor references: the model's reading of ID_PATTERN vs the real pattern object
+    from datamodel_code_generator import reference as _reference
+
+    irng = Rng(rng.s, "id-refs")  # a stream of its own: the draws of the campaigns below stay what they were
+    id_cases = list(dict.fromkeys(
+        ["#" + a for a in anchor_scope_names()] + [a for a in anchor_scope_names()[:40]]
+        + ["", "#", "#/", "#//", "#/a", "#/definitions/Pet", "a.json#b", "a#", "/#a", " #a", "\n#a", "#\n", "#a\n", "#\n/", "##/", "#a/", "# /"]
+        + ["#" + gen_name(irng, not irng.chance(1, 6)) for _ in range(n)]
+    ))
+    simple_campaign(
+        ck, "isIdRef vs reference.ID_PATTERN.match (which references go to the $id registry)", id_cases,
+        lambda r: f"res.isidref {hx(r)}", lambda r: ("ok", "1" if _reference.ID_PATTERN.match(r) else "0"),
+        nontrivial=lambda r, res: r.startswith("#") and len(r) > 1,
+        classify=lambda r, res: ("id-ref" if res == ("ok", "1") else "not-id-ref") + ":" + (anchor_shape(r[1:]) if r.startswith("#") and len(r) > 1 and r[1] != "/" else "pointer-or-other"),
+    )
     stems = [rng.choice(["", ".", "..", "a", "a.b", ".a", "a.", "a.b.c", "..a", "a..", "Pet.json", "x.y.yaml", "#", "é.ü"]) for _ in range(60)]
     simple_campaign(
         ck, "stem vs pathlib.Path(x).stem (x without '/')", stems,
@@ -662,6 +677,19 @@ def gen_anchor_names(rng: Rng, keys: list[str]) -> list[str]:
             name = f"anchor-{j}"
         out.append(name)
     return out
+
+
+ANCHOR_ALPHABET = ["a", "Z", "7", "_", "-", ".", ":", "\u00e9", " ", "%", "#", "/", "~"]
+
+
+def anchor_scope_names() -> list[str]:
+    """the systematic small scope of the anchor-name family: every member of every class pool, then ALL names of
+    length <= 2 over one representative per character class (lower/upper letter, digit, `_ - . :`, non-ASCII letter,
+    blank, `%`, `#`, `/`, `~`) that are inside the family (not starting with `/`)"""
+    out = [a for pool in ANCHOR_POOLS.values() for a in pool]
+    out += [a for a in ANCHOR_ALPHABET if a != "/"]
+    out += [a + b for a in ANCHOR_ALPHABET if a != "/" for b in ANCHOR_ALPHABET]
+    return list(dict.fromkeys(out))
 
 
 def ref_to(case: dict, i_from: int | None, j: int, kind: str = "ref") -> str:
@@ -993,7 +1021,34 @@ def gen_e2e_case(rng: Rng) -> dict:
         if not anchored_defs(case) and same_file_refs and arng.chance(1, 4):
             arng.choice(same_file_refs)[2] = "anchor"
         if anchored_defs(case) and arng.chance(5, 6):
-            case["anchors"] = gen_anchor_names(arng, case["keys"])
+            names = gen_anchor_names(arng, case["keys"])
+            case["anchors"] = [names[j] if j in anchored_defs(case) else None for j in range(n)]
+    return case
+
+
+def gen_anchor_focus_case(rng: Rng, cls: str) -> dict:
+    """a random JSON-Schema case in which at least one definition is referenced through an anchor whose name is a
+    member of class `cls` of ANCHOR_POOLS (stratification: every class is met in every run, whatever the seed)"""
+    while True:
+        case = _gen_e2e_case(rng)
+        if case["container"] != "components/schemas":
+            break
+    n = len(case["keys"])
+    files = case.get("files") or [0] * n
+    cand = [e for e in case["edges"] if e[2] == "ref" and files[e[0]] == files[e[1]]]
+    if cand:
+        rng.choice(cand)[2] = "anchor"
+    main_defs = [i for i in case["root_refs"] if files[i] == 0]
+    if main_defs and (not cand or rng.chance(1, 2)):
+        case["root_anchors"] = rng.sample(main_defs, rng.range(1, min(2, len(main_defs))))
+    if not anchored_defs(case):
+        case["edges"].append([0, 0, "anchor"])
+    anchored = anchored_defs(case)
+    names = gen_anchor_names(rng, case["keys"])
+    j, pick = rng.choice(anchored), rng.choice(ANCHOR_POOLS[cls])
+    names = [f"other-{k}" if a == pick else a for k, a in enumerate(names)]
+    names[j] = pick
+    case["anchors"] = [names[k] if k in anchored else None for k in range(n)]
     return case
 
 
@@ -1053,6 +1108,17 @@ E2E_CORPUS = [
     # the same key in both containers: two named schemas, two classes, every reference lands on the one of ITS container
     {"container": "definitions", "keys": ["Pet", "Pet"], "edges": [[0, 1, "ref"], [1, 0, "array"]], "root_refs": [1], "containers": ["definitions", "$defs"]},
     {"container": "definitions", "keys": ["Pet", "Pet", "pet"], "edges": [[2, 0, "ref"], [2, 1, "anchor"]], "root_refs": [], "containers": ["$defs", "definitions", "$defs"]},
+    # the anchor NAME is a parameter (absent / null = anc{j}): hyphenated plain name, also referenced from the root object
+    {"container": "definitions", "keys": ["Pet", "Dog"], "edges": [[0, 1, "anchor"], [1, 1, "anchor"]], "root_refs": [1], "root_anchors": [1], "anchors": [None, "street-address"]},
+    # names that differ only in case; every definition referenced from the root through its anchor or its pointer
+    {"container": "$defs", "keys": ["Pet", "Dog", "pet"], "edges": [[0, 1, "anchor"], [1, 2, "anchor"], [2, 0, "anchor"]], "root_refs": [0, 1, 2], "root_anchors": [0, 2], "anchors": ["Anchor", "anchor", "ANCHOR"]},
+    # the anchor of a definition is the KEY of the other one, declared in the other container
+    {"container": "definitions", "keys": ["Pet", "Dog"], "edges": [[0, 1, "anchor"], [1, 0, "anchor"]], "root_refs": [], "anchors": ["Dog", "Pet"], "containers": ["definitions", "$defs"]},
+    # near misses the generator resolves by string identity: digit-initial, `_`-initial, dotted with `:`, non-ASCII, blank, further `#`
+    {"container": "definitions", "keys": ["Pet", "Dog", "Pets-item"], "edges": [[0, 1, "anchor"], [1, 2, "anchor"], [2, 0, "anchor"]], "root_refs": [0], "root_anchors": [0], "anchors": ["1a", "_b", "ns:v1.2"]},
+    {"container": "$defs", "keys": ["Pet", "Dog", "pet"], "edges": [[0, 1, "anchor"], [1, 2, "anchor"], [2, 0, "anchor"]], "root_refs": [], "anchors": ["\u00e9", "a b", "#"], "model": "typing.TypedDict"},
+    # cross-file: the SAME anchor name declared in main.json and in other.json (anchor edges are same-file)
+    {"container": "definitions", "keys": ["Pet", "Dog", "Cat"], "edges": [[0, 0, "anchor"], [1, 2, "anchor"], [2, 1, "anchor"]], "root_refs": [0, 1, 2], "root_anchors": [0], "files": [0, 1, 1], "anchors": ["x-1", "x-1", "_y"]},
 ]
 
 
@@ -1070,8 +1136,10 @@ def campaign_e2e(ck: Check, n: int, label: str = "", extra: list | None = None) 
     rng = ck.rng.fork("e2e" + label)
     for case in E2E_CORPUS + list(extra or []):
         e2e_oracle(ck, camp, case)
-    for _ in range(n):
-        case = gen_e2e_case(rng)
+    frng = Rng(rng.s, "anchor-focus")  # a stream of its own: the random cases below stay what they were
+    generated = [gen_anchor_focus_case(frng, cls) for cls in ANCHOR_POOLS for _ in range(1 if n <= 150 else 4)] if n else []
+    for k in range(n + len(generated)):
+        case = generated[k - n] if k >= n else gen_e2e_case(rng)
         # the same definitions in a second, permuted document order (edges keep pointing at the same keys)
         e2e_oracle(ck, camp, case)
         perm = rng.shuffle(list(range(len(case["keys"]))))
@@ -1566,10 +1634,113 @@ def names_of_sequences(cases: list[dict]) -> list[str]:
     return out
 
 
+def strings_of(x) -> list[str]:
+    """every string inside a JSON-able value"""
+    if isinstance(x, str):
+        return [x]
+    if isinstance(x, dict):
+        return [s for v in x.values() for s in strings_of(v)]
+    if isinstance(x, (list, tuple)):
+        return [s for v in x for s in strings_of(v)]
+    return []
+
+
+def anchor_names_of_disagreements(inputs: list) -> list[str]:
+    """anchor names suggested by the inputs of the disagreements (of ANY campaign): every string in them that has
+    the shape of an anchor reference — `#` followed by something that does not start with `/` (`##`, `#pet`,
+    `#foo`, also the part after the `#` of `file#name`) — gives the name after the `#`. Names inside the family only."""
+    out: list[str] = []
+    for inp in inputs:
+        for s in strings_of(inp):
+            cands = []
+            if s.startswith("#"):
+                cands.append(s[1:])
+            elif "#" in s:
+                cands.append(s.split("#", 1)[1])
+            for a in cands:
+                if a and a[0] != "/" and len(a) <= 80 and a not in out:
+                    out.append(a)
+    return out
+
+
+def id_pattern_changed_on(names: list[str]) -> list[str]:
+    """model-side refuter of `id_pattern_is_reviewed`: the names on which the reviewed rule (`#` + anything but `/`:
+    every name of the family is an id reference) and the pattern object of the code as it is now disagree"""
+    try:
+        from datamodel_code_generator import reference
+
+        return [a for a in names if not reference.ID_PATTERN.match("#" + a)]
+    except Exception:  # noqa: BLE001
+        return []
+
+
+def anchor_scope_cases(name: str) -> list[dict]:
+    """complete documents around ONE anchor name: the definition that declares it is referenced through it by the
+    other definition, by itself and by the root object; declared before / after its first use; `definitions`, `$defs`
+    and a document with both containers (the anchor in the second one)"""
+    other = "other" if re.fullmatch(r"anc\d+", name) else None  # the second anchor keeps the historical name
+    return [
+        {"container": "definitions", "keys": ["Pet", "Dog"], "edges": [[1, 0, "anchor"]], "root_refs": [0], "root_anchors": [0], "anchors": [name, None]},
+        {"container": "$defs", "keys": ["Dog", "Pet"], "edges": [[0, 1, "anchor"], [1, 1, "anchor"], [1, 0, "anchor"]], "root_refs": [], "anchors": [other, name]},
+        {"container": "definitions", "keys": ["Pet", "Dog"], "edges": [[0, 1, "anchor"]], "root_refs": [0, 1], "root_anchors": [1], "anchors": [None, name], "containers": ["definitions", "$defs"]},
+    ]
+
+
+def campaign_e2e_anchor_scope(ck: Check, derived: list[str], label: str, budget_s: float = 45.0) -> None:
+    """failing-input search over the anchor-name family: the names derived from the disagreements, one-character
+    variations of them, and the systematic small scope `anchor_scope_names()`; the names on which the pattern object
+    of the code no longer agrees with the reviewed rule are tried first. Stops at the first name that gives a
+    failure (after trying to shorten it) or when the time budget is used up."""
+    camp = ck.campaign("e2e anchor-name scope: names derived from the disagreements + all class pools + all names of length <= 2 over 13 class representatives" + label)
+    t0 = time.time()
+    names = list(derived)
+    for d in derived[:12]:
+        names += [d + x for x in ANCHOR_ALPHABET] + [x + d for x in ANCHOR_ALPHABET if x != "/"]
+    names += anchor_scope_names()
+    names = [a for a in dict.fromkeys(names) if a and a[0] != "/"]
+    first = sorted(id_pattern_changed_on(names), key=lambda a: not anchor_shape(a).startswith("spec"))  # stable: plain names of the drafts first
+    camp.hit(f"names-the-pattern-object-rejects:{min(len(first), 9)}{'+' if len(first) > 9 else ''}")
+    names = list(dict.fromkeys(first + names))
+
+    def fails(name: str) -> bool:
+        k = len(ck.failures)
+        for case in anchor_scope_cases(name):
+            if not e2e_oracle(ck, camp, case) and len(ck.failures) > k:
+                return True
+        return False
+
+    for name in names:
+        if time.time() - t0 > budget_s:
+            camp.hit("stopped:time-budget")
+            break
+        if fails(name):
+            # shrink: drop characters while some document around the shorter name still fails
+            best = name
+            progress = True
+            while progress and len(best) > 1 and time.time() - t0 < budget_s:
+                progress = False
+                for i in range(len(best)):
+                    shorter = best[:i] + best[i + 1:]
+                    # a plain name of the drafts stays one: the replay should show the strongest witness
+                    same = anchor_shape(shorter).split(":")[0] == anchor_shape(best).split(":")[0]
+                    if shorter and shorter[0] != "/" and same and fails(shorter):
+                        best, progress = shorter, True
+                        break
+            # the failure of the shortest name goes first (it becomes the replay)
+            ck.failures.insert(0, ck.failures.pop())
+            camp.hit("found:" + anchor_shape(best))
+            break
+    camp.wall_s = time.time() - t0
+
+
 def search_embed_disagreements(ck: Check) -> None:
-    """DESIGN §2.5: the names of every disagreeing operation sequence become definition keys of
-    complete documents (all orders, three containers, forward/mutual/self references); then a wider
-    seeded e2e campaign; then the exhaustive small scope."""
+    """DESIGN §2.5: (1) anchor-shaped strings of the disagreeing inputs and the systematic scope of the anchor-name
+    family, embedded as `$id` / `$ref` pairs into complete documents; (2) the names of every disagreeing
+    operation sequence become definition keys of complete documents (all orders, three containers,
+    forward/mutual/self references); then a wider seeded e2e campaign; then the exhaustive small scope."""
+    campaign_e2e_anchor_scope(ck, anchor_names_of_disagreements([d.input for d in ck.disagreements]), " [search]")
+    if ck.failures:
+        return
     seqs = [d.input for d in ck.disagreements if isinstance(d.input, dict) and "ops" in d.input]
     mods = [d.input for d in ck.disagreements if isinstance(d.input, dict) and "models" in d.input]
     keys = names_of_sequences(seqs)
